@@ -31,6 +31,7 @@ fn check_fields(info: &Qcow2Info, cb: u32, order: u32, bs: u8, l2sb: u8, rbsb: u
 // @harness c09_info_custom
 // @props C09 C14 C15
 // @tier quick
+// @cost 13
 // @timeout 600
 // @desc Qcow2Info::new with every legal custom cache parameter: no panic/overflow; every derived shift, mask and entry count equals the spec formula (l2_entries = cluster_size/8, refcount_block_entries = cluster_size*8/refcount_bits, slice entry counts), slices fit in a cluster, >= 2 cache slices, flags reflect read-only/backing
 // @bounds cluster_bits 9..=21, refcount_order 0..=6, block bits 9..=12, slice bits block..cluster, cache sizes 2..=2^20 slices, virtual size any u64: all symbolic
@@ -75,6 +76,7 @@ fn c09_info_custom() {
 // @harness c09_info_default
 // @props C09 C14
 // @tier quick
+// @cost 11
 // @timeout 600
 // @desc Qcow2Info::new with the DEFAULT parameters (rb_cache = l2_cache = None, as qcow2_default_params! builds them) for every supported cluster size, refcount width, block size and virtual size: returns Ok without panic or arithmetic overflow, the slice size it picks does not exceed the cluster size and the derived geometry equals the spec formulas
 // @bounds cluster_bits 9..=21, refcount_order 0..=6, block bits 9..=12 (<= cluster_bits), virtual size any u64: all symbolic
@@ -109,6 +111,7 @@ fn ceil_shift(x: u64, k: u32) -> u64 {
 // @harness c09_meta_params
 // @props C09 C20 C12 C03
 // @tier quick
+// @cost 58
 // @timeout 900
 // @desc Qcow2Header::calculate_meta_params, Qcow2Info::get_max_l1_entries, __max_l1_size, __max_refcount_table_size for all inputs: no overflow; refcount table at cluster 1 and large enough (8 bytes per refcount block needed to describe `size` bytes, rounded up to the block size, capped at 8 MiB); refcount block directly after it; L1 table directly after that with ceil(size / (l2_entries*cluster_size)) entries capped at 32 MiB; all three regions cluster aligned, consecutive and non-overlapping
 // @bounds size: all u64 >= 1; cluster_bits 9..=21, refcount_order 0..=6, block bits 9..=12: symbolic
